@@ -135,6 +135,7 @@ type Explorer struct {
 	deadline     time.Time
 	witnesses    []map[string]any
 	wantWitness  int
+	witnessAll   bool // replay every complete path natively (conformance harnesses)
 	witnessSeen  int
 }
 
@@ -323,7 +324,7 @@ func (w *Worker) runPath(prefix []decision) {
 		e.witnessSeen++
 		// reservoir-free: take the first few, then every 2^k-th complete path
 		n := e.witnessSeen
-		take := len(e.witnesses) < e.wantWitness && (n <= 2 || n&(n-1) == 0)
+		take := len(e.witnesses) < e.wantWitness && (e.witnessAll || n <= 2 || n&(n-1) == 0)
 		e.mu.Unlock()
 		if take {
 			if m, ok := ex.currentModel(); ok {
